@@ -5,7 +5,7 @@ export GOFLAGS=-mod=mod GOPROXY=off GOSUMDB=off GOTOOLCHAIN=local
 HERE=$(cd "$(dirname "$0")/.." && pwd)
 tier=$1; shift
 ids="$@"; [ -z "$ids" ] && ids="C01 C02 C03 C04 C05 C06 C07 C08 C09 C10 C11 C12 C13 C14 C15 C16 C17 C18 C19 C20"
-( cd $HERE/harness && go build -tags verif -o bin/corr . && go run ./cmd/extract -repo /repo -out $HERE/lean/Clover/Generated/Facts.lean ) || exit 2
+( cd $HERE/harness && go build -tags verif -o bin/corr . && go run ./cmd/extract -repo /repo -out $HERE/lean/Clover/Generated/Facts.lean && go run ./cmd/translate -repo /repo -out $HERE/lean/Clover/Generated/Translated.lean ) || exit 2
 ( cd $HERE/lean && lake build Clover driver 2>&1 | grep -E "error|completed" )
 cd $HERE
 for p in $ids; do
